@@ -106,8 +106,16 @@ func solveObligation(o *Obligation, reg *Registry, cfg *SolverCfg) {
 	solverUsed := ""
 	var total float64
 	var outputs []string
-	for _, cmd := range solverCmds {
-		ans, raw, dur := runSolver(cmd, file, cfg.TimeoutS)
+	for ci, cmd := range solverCmds {
+		to := cfg.TimeoutS
+		if o.Expect == "sat" {
+			// vacuity guards: a quick satisfiability probe; "unknown" counts as not refuted
+			if ci > 0 {
+				break
+			}
+			to = 2
+		}
+		ans, raw, dur := runSolver(cmd, file, to)
 		total += dur
 		outputs = append(outputs, fmt.Sprintf("[%s %.2fs] %s", solverName(cmd), dur, firstLines(raw, 6)))
 		for i := 0; i < n && i < len(ans); i++ {
